@@ -4,7 +4,7 @@ MPU file sink
 
 from __future__ import annotations
 
-import mmap
+import shutil
 from pathlib import Path
 from typing import Any
 
@@ -78,10 +78,7 @@ class MPUFileSink:
             for part in rest:
                 src_path = Path(part["Path"])
                 with src_path.open("rb") as src:
-                    with mmap.mmap(
-                        src.fileno(), 0, access=mmap.ACCESS_READ
-                    ) as src_bytes:
-                        f.write(src_bytes)
+                    shutil.copyfileobj(src, f)
 
                 if not keep_parts:
                     src_path.unlink()
